@@ -95,6 +95,8 @@ def gen(rng, tier, index):
         "bounds": rng.random() < 0.25,
         "checkpoint": rng.random() < 0.12,
         "limit_action": rng.choice(["ignore", "ignore", "ignore", "raise", "warn"]),
+        "mprobs_mode": rng.choice(["empirical", "empirical", "optimised", "user"]),
+        "user_mprobs": [round(rng.uniform(0.1, 1.0), 3) for _ in range(4)],
         "chain": rng.random() < 0.5,
     }
     return plan
@@ -150,8 +152,16 @@ def build(plan, which, aln, tree):
     kw = {}
     if plan["kind"] == "mprobs" and which == "alt":
         kw["optimise_motif_probs"] = True
+    mode = plan.get("mprobs_mode", "empirical")
+    equal_freq_null = plan["null"] in ("JC69", "K80") or name.startswith("MG94")
+    if mode == "optimised" and not equal_freq_null:
+        # motif probabilities are free parameters of both models
+        kw["optimise_motif_probs"] = True
     lf = sm.make_likelihood_function(tree, **kw)
     lf.set_alignment(aln)
+    if mode == "user" and not equal_freq_null and which == "null":
+        tot = sum(plan["user_mprobs"])
+        lf.set_motif_probs({b: v / tot for b, v in zip("TCAG", plan["user_mprobs"])})
     edges = [e.name for e in tree.get_edge_vector(include_root=False)]
     if plan["kind"] == "matrix+scope":
         if which == "alt":
@@ -515,7 +525,7 @@ def _finish(res, h, plan):
     h.update(repr(sorted(v.cls for v in res.violations)).encode())
     res.digest = h.hexdigest()
     shape = (f"{plan['null']}|{plan['alt']}|{plan['kind']}|{plan['n1']}|{plan['n2']}|{plan['local1']}|{plan['local2']}|"
-             f"{plan['fail_rate']}|{plan['sweep']}|{plan['tree']}")
+             f"{plan['fail_rate']}|{plan['sweep']}|{plan['tree']}|{plan.get('mprobs_mode')}")
     res.shapes.append(hashlib.sha256(shape.encode()).hexdigest()[:16])
     res.sample = describe(plan)
     return res
